@@ -3,9 +3,9 @@ package main
 // Part "mesgdef": walks profile/mesgdef/*_gen.go and emits coq/gen/MesgdefSpec.v -- one `mspec` record per
 // typed message -- plus C13Registry.go.txt (the list of NewXxx/ToMesg pairs, compiled into the C13 harness).
 // From Reset: vals array length, bound constant, state array, expanded bound, per struct field the vals[N] index
-// and accessor form.  From ToMesg: per if-block guard, CreateField number, proto.X constructor, IsExpandedField use.
+// and mdAccessor form.  From ToMesg: per if-block guard, CreateField number, proto.X constructor, IsExpandedField use.
 // From IsExpandedField / MarkAsExpandedField: bound and case list.  From XxxScaled / SetXxxScaled: the literals.
-// Constants (basetype.XInvalid, typedef.XInvalid, typedef.MesgNumX) and the accessor/constructor semantics of
+// Constants (basetype.XInvalid, typedef.XInvalid, typedef.MesgNumX) and the mdAccessor/constructor semantics of
 // proto/value.go are resolved from the source.  Any shape that is not recognised is an error.
 
 import (
@@ -50,11 +50,11 @@ type mdEnv struct {
 	basetype  map[string]constVal // XInvalid constants of profile/basetype
 	typedefU  map[string]string   // typedef type name -> underlying Go type
 	typedefC  map[string]constVal // typedef constants (XInvalid, MesgNumX, BoolInvalid)
-	accessors map[string]accessor // proto.Value methods
+	accessors map[string]mdAccessor // proto.Value methods
 	ctors     map[string]string   // proto constructors: name -> "num:TU8" | "arr:TU8" | "str" | "strs"
 }
 
-type accessor struct {
+type mdAccessor struct {
 	kind string // "num" | "arr" | "str" | "strs"
 	nt   string // ntype
 	inv  uint64 // returned on type mismatch (num)
@@ -145,7 +145,7 @@ func collectConsts(e *mdEnv, f *ast.File, into map[string]constVal, only func(st
 
 func loadEnv(repo string) (*mdEnv, error) {
 	e := &mdEnv{fset: token.NewFileSet(), basetype: map[string]constVal{}, typedefU: map[string]string{}, typedefC: map[string]constVal{},
-		accessors: map[string]accessor{}, ctors: map[string]string{}}
+		accessors: map[string]mdAccessor{}, ctors: map[string]string{}}
 	bf, err := parser.ParseFile(e.fset, filepath.Join(repo, "profile/basetype/basetype.go"), nil, 0)
 	if err != nil {
 		return nil, err
@@ -203,7 +203,7 @@ func loadEnv(repo string) (*mdEnv, error) {
 		}
 		body := squash(e.src(fd.Body))
 		name := fd.Name.Name
-		if fd.Recv != nil { // accessor candidates
+		if fd.Recv != nil { // mdAccessor candidates
 			if m := reNumAcc.FindStringSubmatch(body); m != nil {
 				nt, ok := tagNtype[m[1]]
 				if !ok {
@@ -234,19 +234,19 @@ func loadEnv(repo string) (*mdEnv, error) {
 					return nil, fmt.Errorf("value.go %s: mismatch result %s", name, m[2])
 				}
 				inv &= widthMask(nt)
-				e.accessors[name] = accessor{kind: "num", nt: nt, inv: inv}
+				e.accessors[name] = mdAccessor{kind: "num", nt: nt, inv: inv}
 			} else if m := reArrAcc.FindStringSubmatch(body); m != nil {
 				if m[1] == "String" {
-					e.accessors[name] = accessor{kind: "strs"}
+					e.accessors[name] = mdAccessor{kind: "strs"}
 				} else {
 					nt, ok := tagNtype[m[1]]
 					if !ok {
 						return nil, fmt.Errorf("value.go %s: tag %s", name, m[1])
 					}
-					e.accessors[name] = accessor{kind: "arr", nt: nt}
+					e.accessors[name] = mdAccessor{kind: "arr", nt: nt}
 				}
 			} else if reStrAcc.MatchString(body) {
-				e.accessors[name] = accessor{kind: "str"}
+				e.accessors[name] = mdAccessor{kind: "str"}
 			}
 			continue
 		}
@@ -436,19 +436,19 @@ func (e *mdEnv) isStringInvalid(x ast.Expr) bool {
 var reValsAcc = regexp.MustCompile(`^\(?vals\[(\d+)\]\)?\.(\w+)\(\)$`)
 
 // vals[N].Acc() or (vals[N]).Acc()
-func (e *mdEnv) valsAccess(x ast.Expr) (uint64, accessor, string, error) {
+func (e *mdEnv) valsAccess(x ast.Expr) (uint64, mdAccessor, string, error) {
 	m := reValsAcc.FindStringSubmatch(squash(e.src(x)))
 	if m == nil {
-		return 0, accessor{}, "", fmt.Errorf("not a vals[N].Accessor() expression: %s", squash(e.src(x)))
+		return 0, mdAccessor{}, "", fmt.Errorf("not a vals[N].Accessor() expression: %s", squash(e.src(x)))
 	}
 	ce, ok := x.(*ast.CallExpr)
 	if !ok || len(ce.Args) != 0 {
-		return 0, accessor{}, "", fmt.Errorf("not a call: %s", e.src(x))
+		return 0, mdAccessor{}, "", fmt.Errorf("not a call: %s", e.src(x))
 	}
 	idx, _ := strconv.ParseUint(m[1], 10, 64)
 	a, ok := e.accessors[m[2]]
 	if !ok {
-		return 0, accessor{}, "", fmt.Errorf("unknown proto.Value accessor %s", m[2])
+		return 0, mdAccessor{}, "", fmt.Errorf("unknown proto.Value mdAccessor %s", m[2])
 	}
 	return idx, a, m[2], nil
 }
@@ -479,7 +479,7 @@ func (e *mdEnv) resetExpr(f *mdField, x ast.Expr) error {
 					return fail("%v", err)
 				}
 				if a.kind != "arr" {
-					return fail("typed slice over non-slice accessor")
+					return fail("typed slice over non-slice mdAccessor")
 				}
 				if goNtype[e.typedefU[t.isTd]] != a.nt {
 					return fail("typed slice reinterprets %s as %s (%s)", a.nt, t.isTd, e.typedefU[t.isTd])
@@ -535,13 +535,13 @@ func (e *mdEnv) resetExpr(f *mdField, x ast.Expr) error {
 				}
 				if t.kind == "fixstr" {
 					if a.kind != "strs" {
-						return fail("fixed string array over accessor kind %s", a.kind)
+						return fail("fixed string array over mdAccessor kind %s", a.kind)
 					}
 					f.idx, f.acc, f.form = idx, fmt.Sprintf("AFixStr %d", t.n), "fixed"
 					return nil
 				}
 				if a.kind != "arr" || a.nt != t.nt {
-					return fail("fixed array of %s over accessor %s %s", t.nt, a.kind, a.nt)
+					return fail("fixed array of %s over mdAccessor %s %s", t.nt, a.kind, a.nt)
 				}
 				f.idx, f.acc, f.form = idx, fmt.Sprintf("AFix %s %d %d", a.nt, t.n, fill), "fixed"
 				return nil
@@ -558,7 +558,7 @@ func (e *mdEnv) resetExpr(f *mdField, x ast.Expr) error {
 				return fail("%v", err)
 			}
 			if an != "Uint32" || a.kind != "num" {
-				return fail("datetime.ToTime over accessor %s", an)
+				return fail("datetime.ToTime over mdAccessor %s", an)
 			}
 			f.idx, f.acc, f.form = idx, fmt.Sprintf("ATime %d", a.inv), "time"
 			return nil
@@ -572,7 +572,7 @@ func (e *mdEnv) resetExpr(f *mdField, x ast.Expr) error {
 				return fail("%v", err)
 			}
 			if a.kind != "num" {
-				return fail("cast over accessor %s", an)
+				return fail("cast over mdAccessor %s", an)
 			}
 			if goNtype[e.typedefU[t.isTd]] != a.nt { // Go's conversion between different widths would change the value
 				return fail("cast %s(%s) converts %s to %s", fun, an, a.nt, e.typedefU[t.isTd])
@@ -589,22 +589,22 @@ func (e *mdEnv) resetExpr(f *mdField, x ast.Expr) error {
 	switch a.kind {
 	case "num":
 		if t.kind != "num" || (t.isTd != "" && t.isTd != "typedef.Bool") || (t.nt != a.nt) {
-			return fail("accessor %s on field type", an)
+			return fail("mdAccessor %s on field type", an)
 		}
 		f.acc = fmt.Sprintf("ANum %s %d", a.nt, a.inv)
 	case "arr":
 		if t.kind != "arr" || t.nt != a.nt || (t.isTd != "" && t.isTd != "typedef.Bool") {
-			return fail("accessor %s on field type", an)
+			return fail("mdAccessor %s on field type", an)
 		}
 		f.acc = "AArr " + a.nt
 	case "str":
 		if t.kind != "str" {
-			return fail("accessor %s on field type", an)
+			return fail("mdAccessor %s on field type", an)
 		}
 		f.acc = "AStr"
 	case "strs":
 		if t.kind != "strs" {
-			return fail("accessor %s on field type", an)
+			return fail("mdAccessor %s on field type", an)
 		}
 		f.acc = "AStrs"
 	}
